@@ -200,15 +200,112 @@ def run_case(case):
     return out
 
 
+# ------------------------------------------------------------------ sequences of calls on ONE move object
+@st.composite
+def seq_case(draw):
+    n = draw(st.integers(2, 8))
+    labels = draw(st.lists(st.integers(-2, 4), min_size=n, max_size=n).map(lambda ls: ls if any(x >= 0 for x in ls) else [0] + ls[1:]))
+    steps = []
+    for _ in range(draw(st.integers(2, 5))):
+        kind = draw(st.sampled_from(["call", "call", "call_veto_all", "add_atoms"]))
+        if kind == "add_atoms":
+            steps.append(["add_atoms", draw(st.integers(1, 2)), draw(st.sampled_from(["existing", "auto", "negative"])), draw(st.integers(0, 10))])
+        else:
+            steps.append([kind, draw(st.one_of(st.none(), st.integers(0, 10)))])
+    return {"pos": [[draw(fl(0.5, 7.5)) for _ in range(3)] for _ in range(n)], "labels": labels, "op": draw(st.sampled_from(["Ball", "Box", "Translation"])),
+            "size": draw(fl(0.05, 1.0)), "steps": steps, "max_attempts": draw(st.integers(1, 3)), "seed": draw(st.integers(0, 2 ** 32))}
+
+
+def run_seq(case):
+    from quansino.mc.contexts import DisplacementContext
+    from quansino.moves.displacement import DisplacementMove
+
+    atoms = Atoms("H" * len(case["pos"]), positions=case["pos"], cell=[8, 8, 8], pbc=True)
+    ctx = DisplacementContext(atoms, np.random.Generator(np.random.PCG64(case["seed"])))
+    rec = []
+    move = DisplacementMove(np.array(case["labels"], dtype=int), make_op(case["op"], case["size"], rec))
+    move.max_attempts = case["max_attempts"]
+    veto_all = {"on": False}
+    move.check_move = lambda *_a, **_k: not veto_all["on"]
+    model = list(case["labels"])  # the harness' own copy of the labelling
+    labs = ["sequence", "op:" + case["op"]]
+    nontrivial = False
+    desc0 = f"labels={case['labels']} op={case['op']} steps={case['steps']}"
+    try:
+        with warnings.catch_warnings():
+            warnings.simplefilter("ignore")
+            for si, st_ in enumerate(case["steps"]):
+                if st_[0] == "add_atoms":
+                    k, how, pick = st_[1], st_[2], st_[3]
+                    elig = sorted({l for l in model if l >= 0})
+                    if how == "existing" and elig:
+                        move.default_label = elig[pick % len(elig)]
+                        new_label = move.default_label
+                    elif how == "negative":
+                        move.default_label = -1
+                        new_label = -1
+                    else:
+                        move.default_label = None
+                        new_label = (max(elig) + 1) if elig else 0
+                    n0 = len(atoms)
+                    atoms.extend(Atoms("H" * k, positions=[[1.0 + 0.3 * j, 1.0, 7.0] for j in range(k)]))
+                    move.on_atoms_changed(list(range(n0, n0 + k)), [])
+                    model += [new_label] * k
+                    ctx.last_positions = atoms.get_positions()
+                    labs.append("atoms-added:" + how)
+                    nontrivial = True
+                    continue
+                veto_all["on"] = st_[0] == "call_veto_all"
+                elig = sorted({l for l in model if l >= 0})
+                pre = None
+                if st_[1] is not None and elig:
+                    pre = elig[st_[1] % len(elig)]
+                    move.to_displace_labels = pre
+                before = atoms.positions.copy()
+                n_rec = len(rec)
+                result = move(ctx)
+                after = atoms.positions
+                changed = sorted(int(i) for i in np.flatnonzero(np.any(after != before, axis=1)))
+                desc = f"{desc0} at step {si}"
+                arr = np.array(model)
+                if veto_all["on"] or not elig:
+                    if result or changed:
+                        return {"labels": labs, "nontrivial": True, "violation": {"kind": "seq:failed-but-changed", "detail": f"{desc}: vetoed/ineligible call returned {result!r}, rows {changed} changed"}}
+                    if si > 0:
+                        nontrivial = True
+                    continue
+                if not result:
+                    return {"labels": labs, "nontrivial": True, "violation": {"kind": "seq:unexpected-failure", "detail": f"{desc}: call failed without veto"}}
+                sel = int(move.displaced_labels)
+                if pre is not None and sel != pre:
+                    return {"labels": labs, "nontrivial": True, "violation": {"kind": "seq:preselection-ignored", "detail": f"{desc}: pre-selected {pre}, displaced {sel}"}}
+                rows = [int(i) for i in np.flatnonzero(arr == sel)]
+                if changed != rows:
+                    return {"labels": labs, "nontrivial": True, "violation": {"kind": "seq:wrong-atoms-moved", "detail": f"{desc}: selected label {sel} has atoms {rows} (harness labelling {model}) but atoms {changed} moved"}}
+                if len(rec) > n_rec:
+                    idx, vec = rec[-1]
+                    tr = np.zeros_like(before)
+                    tr[idx] = vec
+                    if not np.array_equal(after, before + tr):
+                        return {"labels": labs, "nontrivial": True, "violation": {"kind": "seq:not-operation-result", "detail": f"{desc}: moved rows differ from the operation's last result"}}
+                if len(np.asarray(move.labels)) != len(atoms) or list(np.asarray(move.labels)) != model:
+                    return {"labels": labs, "nontrivial": True, "violation": {"kind": "seq:labels-drift", "detail": f"{desc}: move.labels={list(np.asarray(move.labels))} but the labelling should be {model}"}}
+    except Exception as exc:
+        return {"labels": labs + ["raised"], "nontrivial": True, "violation": {"kind": f"seq:raises:{type(exc).__name__}", "detail": f"{desc0}: {exc!r}"[:400]}}
+    return {"labels": sorted(set(labs)), "nontrivial": nontrivial, "key": f"{sorted(case['labels'])}|{[s[0] for s in case['steps']]}|{case['op']}", "violation": None}
+
+
 def plan(tier):
     if tier == "quick":
-        return [{"part": "moves", "shards": 16, "budget": {"n_examples": 2000}}]
-    return [{"part": "moves", "shards": 16, "budget": {"n_examples": 50000}}]
+        return [{"part": "moves", "shards": 11, "budget": {"n_examples": 2000}}, {"part": "sequences", "shards": 5, "budget": {"n_examples": 1500}}]
+    return [{"part": "moves", "shards": 11, "budget": {"n_examples": 50000}}, {"part": "sequences", "shards": 5, "budget": {"n_examples": 40000}}]
 
 
 def run_part(part, seed, shard, nshards, budget):
+    if part == "sequences":
+        return hyp.search(seq_case(), run_seq, budget["n_examples"], seed, part)
     return hyp.search(case_st(), run_case, budget["n_examples"], seed, part)
 
 
 def replay(part, case):
-    return run_case(case)
+    return run_seq(case) if part == "sequences" else run_case(case)
